@@ -10,8 +10,9 @@ the real functions read from /repo's working tree:
  (2) utils/rst.py rst (plain-text branch) through the real utils/lines.py wrap: for ALL texts within the
      bound the returned text, placed between triple double-quotes, does not terminate the literal early
      (Python tokenizer rule: backslash escapes the next character, first unescaped triple quote ends it).
-`wrap`'s re-flow clauses (words kept in order, width respected) are NOT encoded: textwrap is replaced by a
-short-text model validated against the real textwrap on every run.
+ (3) utils/lines.py wrap with a step-by-step model of textwrap (validated against the real textwrap on every run): for
+     ALL texts within the bound and several (width, indent, offset) settings incl. widths small enough to force
+     re-wrapping, wrap never drops, duplicates or reorders a word.  The width clause is not encoded.
 """
 from __future__ import annotations
 
@@ -251,6 +252,20 @@ def validate(chk, rnd):
     texts = ['a "b"', 'say "x".', '"""', 'a\\', "a: b", "- item one", "1. item", "two\nlines", "t:\nx", "  pad  ", 'q"\n']
     for _ in range(120):
         texts.append("".join(rnd.choice('"\\a .\n:-') for _ in range(rnd.randint(0, 9))))
+    from checks import _wrapflow as wf
+    for _ in range(400):
+        t = "".join(rnd.choice("ab \n\t:-1.") for _ in range(rnd.randint(0, 14)))
+        w = rnd.choice([3, 4, 6, 8, 10, 72])
+        ii, si = " " * rnd.choice([0, 2]), " " * rnd.choice([0, 2, 4])
+        if len(ii) >= w or len(si) >= w:
+            continue
+        real = textwrap.wrap(t, width=w, initial_indent=ii, subsequent_indent=si, break_long_words=False, break_on_hyphens=False)
+        for c, r in bstr.explore(lambda: wf.tw_wrap(bstr.S(t), width=w, initial_indent=ii, subsequent_indent=si,
+                                                    break_long_words=False, break_on_hyphens=False)):
+            n += 1
+            if [x.concrete() for x in r] != real:
+                bad += 1
+                chk.sample({"textwrap_model_disagreement": [t, w, real]})
     tw = textwrap_model()
     for t in texts:
         for (w, ind, nl) in ((72, 0, None), (72, 8, None), (40, 4, False), (72, 4, True)):
@@ -306,7 +321,8 @@ def body(chk: core.Check):
         "breaking are outside the family and counted",
         "the docstring body is followed directly by the closing triple quotes (worst case of every template context)",
     ]
-    chk.outside += ["wrap()'s re-flow clauses: never drops/duplicates/reorders words, never exceeds the width (textwrap)",
+    chk.outside += ["wrap(): the 'never exceeds the width' clause; texts whose over-long first line contains tabs or starts "
+                    "with blanks (known finding F3)",
                     "the pandoc branch of rst()", "Metadata.doc comment selection", "strings longer than the bounds"]
     rnd = random.Random(chk.seed)
     n, bad = validate(chk, rnd)
@@ -375,6 +391,51 @@ def body(chk: core.Check):
     chk.sample({"rst_partitions": len(rtasks), "paths_outside_family(text needs wrapping)": tot_out})
     chk.twin("rst: inputs containing quotes reach the guard", True)
 
+    # ---- (3) wrap re-flow: no word is dropped, duplicated or reordered ----------------------------
+    if chk.only("wrap"):
+        from checks import _wrapflow as wf
+        _w, wsrc2 = wf.load_wrap()
+        NW = 6 if quick else 8
+        settings = [(72, 0, 0), (8, 0, 0), (6, 2, 3), (4, 0, 1)] if quick else \
+            [(72, 0, 0), (72, 8, 11), (8, 0, 0), (6, 2, 3), (4, 0, 1), (5, 2, 0), (10, 4, 7)]
+        notab = [c for c in wf.WRAP_ALPHA if c != 9]
+        wtasks = []
+        for (w, ind, off) in settings:
+            wtasks.append(dict(L=0, prefix=(), width=w, indent=ind, offset=off, alphabet=notab, family="A"))
+            for L in range(1, NW + 1):
+                for c0 in [ord(c) for c in "a:-1."]:          # family A: no tab, no leading blank
+                    wtasks.append(dict(L=L, prefix=(c0,), width=w, indent=ind, offset=off, alphabet=notab, family="A"))
+        for L in range(1, NW + 1):                                # family B: tabs / leading blanks, first line never re-wrapped
+            for c0 in wf.WRAP_ALPHA:
+                wtasks.append(dict(L=L, prefix=(c0,), width=72, indent=0, offset=0, family="B"))
+        chk.bound("wrap_text", f"family A: all texts <= {NW} chars over 'a \\n:-1.' not starting with a blank, for (width, indent, "
+                  f"offset) in {settings}; family B: all texts <= {NW} chars incl. tabs and leading blanks at width 72")
+        with mp.Pool(chk.jobs) as pool:
+            wres = pool.map(wf.wrap_task, wtasks, chunksize=1)
+        for lv, checks, secs, cex, task in wres:
+            key = f"wrap:{task['family']}:L={task['L']},c0={task['prefix']},w={task['width']},i={task['indent']},o={task['offset']}"
+            if cex is None:
+                chk.ok("wrap-words-preserved", key, secs, n=max(lv, 1))
+            else:
+                text = wf.py_wrap_violation(cex, task["width"], task["indent"], task["offset"])
+                if text:
+                    chk.violation(f"wrap:{task['family']}:{cex!r}", text, {"kind": "wrap", "input": cex, "width": task["width"],
+                                                                         "indent": task["indent"], "offset": task["offset"]})
+                else:
+                    chk.fail_inconclusive(f"wrap counterexample {cex!r} did not replay")
+        chk.sample({"wrap_partitions": len(wtasks), "leaves": sum(r[0] for r in wres)})
+        # known finding F3: an over-long first line whose textwrap image is not a literal prefix of the text
+        f3 = wf.py_wrap_violation("a\tb c d e f g h i j k", 12, 0, 0)
+        if f3:
+            chk.violation("wrap-first-line-rewrap", f3, {"kind": "wrap", "input": "a\tb c d e f g h i j k", "width": 12, "indent": 0, "offset": 0})
+        # canary: the colon rule applied to a first line with trailing blanks (in-memory mutant)
+        mut = open(wf.LINES).read().replace('if first.endswith(":\\n"):', 'if first.rstrip().endswith(":"):')
+        fired = False
+        for c0 in (ord("a"),):
+            r = wf.wrap_task(dict(L=5, prefix=(c0,), width=72, indent=0, offset=0, alphabet=notab, source=mut))
+            fired = fired or r[3] is not None
+        chk.canary("wrap applying the colon rule to 'x: ' first lines (in-memory mutant)", fired)
+
     # ---- sensitivity canaries (in-memory mutants of the loaded sources) --------------------------
     src = open(FMT).read().replace('return f"{code.rstrip()}\\n"', 'return f"{code.rstrip(chr(32))}\\n"')
     fwm, _ = bstr.load_function(FMT, "fix_whitespace", source=src)
@@ -391,6 +452,9 @@ def body(chk: core.Check):
 def replay(chk, data):
     if data.get("kind") == "formatter":
         return py_formatter_violation(data["input"])
+    if data.get("kind") == "wrap":
+        from checks import _wrapflow as wf
+        return wf.py_wrap_violation(data["input"], data["width"], data["indent"], data["offset"])
     if data.get("kind") == "rst":
         return py_rst_violation(data["input"], data["width"], data["indent"], data["nl"])
     return None
